@@ -126,6 +126,16 @@ def f_type_two_level():
     return out
 
 
+def _aliased():
+    s = {"k": 1, "l": [1, "3"]}
+    lst = [1, 2]
+    e = {}
+    return [
+        [s, {"k": 2}, s], {"a": s, "b": s, "c": {"a": s}}, {"a": lst, "b": [lst, lst], 0: lst},
+        [[s], [s, s]], {"a": [e, e], "b": e}, {"a": {"a": s, "b": [s]}, "b": {"a": s}},
+    ]
+
+
 def f_deep():
     """Three- and four-level documents with asymmetric branches: at every level a scalar, an empty
     container or a container of the other kind sits *before* (and after) a sibling that leads
@@ -143,6 +153,8 @@ def f_deep():
         {"k": {"a": 1}, "l": {"a": {"a": 1}}, "m": {"a": {"a": {"a": "1"}}}},
         [{"a": []}, {"a": [0]}, {"a": [[]]}, {"a": [[0]]}, {"a": {}}],
         {"a": {"x": 1}, "b": {"y": [1]}, "c": 1, "d": {"y": [2, 3]}},
+        # the same container object at several positions (what a YAML anchor / alias loads as)
+        *_aliased(),
         # wide and deep: 12 siblings per level, 6 levels
         {"a": [{"a": i, "b": [i, str(i)]} for i in range(12)], "b": {("k%d" % i): [i] for i in range(12)}},
         {"a": {"a": {"a": {"a": {"a": {"a": 1, "b": "3"}}, "b": [[[[["true"]]]]]}}}, 0: [[[[[[0]]]]]]},
